@@ -72,6 +72,145 @@ def _coef_vector(p, b, e):
     return -1
 
 
+def r6_mglsa(ctx, p):
+    """R6: one all-pole section with warped delays (dff), cascaded `stage` times (df)"""
+    ctx.rule("C13-R6", "MGLSA section dff: y = d[0]*c[1] + sum_{t=1}^{len-2} d[t]*c[t+1] with d[t] += alpha*(d[t+1] - d[t-1]) applied first; x -= y; delay line shifted d[t] <- d[t-1] for t = len-1 down to 1; d[0] <- alpha*d[0] + (1 - alpha^2)*x; df runs dff once per section 0..d.len(); the filter has `stage` sections of nmcp delays")
+    MG = "vocoder::mglsa::MelGeneralizedLogSpectrumApproximation::"
+    b = cm.body_or_fail(ctx, p, "C13-R6", MG + "dff")
+    if b is None:
+        return
+    eb = ExprBuilder(b)
+
+    def atomize(e):
+        if e[0] == "len" and show(e[1]) == "coefficients":
+            return ("sym", "LEN")
+        return None
+    syms = LoopSyms(atomize)
+    LEN = Poly.atom(("sym", "LEN"))
+    one = Poly.const(1)
+
+    def is_d(e):
+        return e[0] == "idx" and e[1][0] == "field" and e[1][2] == "d" and e[1][1][0] == "arg" and e[1][1][1] == 1 and e[2][0] == "arg"
+
+    def atoms(e):
+        if e[0] == "idx" and is_d(e[1]):
+            return ("D", syms.poly(e[2]).key())
+        if e[0] == "idx" and show(e[1]) == "coefficients":
+            return ("C", syms.poly(e[2]).key())
+        if e[0] == "arg" and e[2] == "alpha":
+            return ("alpha",)
+        if show(e) == "x":
+            return ("x",)
+        return syms.atomize(e)
+    D = lambda pol: Poly.atom(("D", pol.key()))
+    C = lambda pol: Poly.atom(("C", pol.key()))
+    AL = Poly.atom(("alpha",))
+    X = Poly.atom(("x",))
+    got = {}
+    sts = stores(b, eb)
+    ctx.anchor("C13-R6", "stores in dff", len(sts), 3, b.loc())
+    lv_w = lv_s = None
+    for bb, i, st, tgt, root, chain, val in sts:
+        loc = cm.loc_of(st["span"])
+        if show(tgt) == "x":
+            y = val[3] if val[0] == "bin" and val[1] == "Sub" and show(val[2]) == "x" else None
+            got["x"] = (bb, y)
+            continue
+        if not (tgt[0] == "idx" and is_d(tgt[1])):
+            ctx.fail("C13-R6", b.path, "store", "dff stores to %s" % show(tgt)[:80], loc)
+            continue
+        ip = syms.poly(tgt[2])
+        vp = to_poly(val, atoms)
+        lv = _single_lv(ip)
+        if lv is not None and ip == syms.lv(lv):
+            t = syms.lv(lv)
+            inf = syms.info[lv]
+            if vp == D(t) + AL * (D(t + one) - D(t - one)):
+                okr = inf["dir"] == "up" and inf["start"] == one and inf["end"] == frozenset([LEN - one])
+                got["warp"] = (bb, okr, syms.describe(lv))
+                lv_w = lv
+            elif vp == D(t - one):
+                okr = inf["dir"] == "down" and inf["start"] == one and inf["end"] == frozenset([LEN])
+                got["shift"] = (bb, okr, syms.describe(lv))
+            else:
+                ctx.fail("C13-R6", b.path, "delay update", "d[t] <- %s is neither the warp update d[t] + alpha*(d[t+1] - d[t-1]) nor the shift d[t-1]" % vp, loc)
+        elif not ip.t:
+            if vp == AL * D(Poly.const(0)) + (one - AL * AL) * X:
+                got["d0"] = (bb, True)
+            else:
+                ctx.fail("C13-R6", b.path, "d[0]", "d[0] <- %s, expected alpha*d[0] + (1 - alpha^2)*x" % vp, loc)
+    # block-copy form of the shift: d.copy_within(0..len-1, 1)
+    for bb, t in b.calls():
+        c = t["callee"]
+        if c["k"] == "fndef" and cm.callee_name(c).endswith("::copy_within") and len(t["args"]) == 3:
+            recv, rng, dst = (eb.at(bb).op(a) for a in t["args"])
+            okr = is_d(recv) and rng[0] == "agg" and rng[1].endswith("Range::Range") and not syms.poly(rng[2][0]).t and syms.poly(rng[2][1]) == LEN - one and syms.poly(dst) == one
+            got["shift"] = (bb, okr, "copy_within(%s, %s)" % (show(rng)[-60:], show(dst)))
+    # the accumulator y
+    yx = got.get("x", (None, None))[1]
+    oky = False
+    if yx is not None and yx[0] == "var" and isinstance(yx[1], int):
+        defs = eb.def_exprs(yx[1])
+        init = [d for d in defs if to_poly(d, atoms) == D(Poly.const(0)) * C(one)]
+        upd = []
+        for d in defs:
+            if d[0] == "bin" and d[1] == "Add" and d[2] == yx:
+                tp = to_poly(d[3], atoms)
+                if lv_w is not None and tp == D(syms.lv(lv_w)) * C(syms.lv(lv_w) + one):
+                    upd.append(d)
+        oky = len(defs) == 2 and len(init) == 1 and len(upd) == 1
+    if oky:
+        ctx.ok("C13-R6", "y = d[0]*c[1] + sum over the warp loop of d[t]*c[t+1]; x <- x - y", b.loc())
+    else:
+        ctx.fail("C13-R6", b.path, "section output", "the section output is not x - (d[0]*c[1] + sum_t d[t]*c[t+1]) accumulated in the warp loop", b.loc())
+    for k, what in (("warp", "warp update d[t] += alpha*(d[t+1] - d[t-1]) for t in 1..len-1"), ("shift", "delay shift d[t] <- d[t-1] for t = len-1 down to 1"), ("d0", "d[0] <- alpha*d[0] + (1 - alpha^2)*x")):
+        v = got.get(k)
+        if v is None:
+            ctx.fail("C13-R6", b.path, "missing " + k, "not found: " + what, b.loc())
+        elif not v[1]:
+            ctx.fail("C13-R6", b.path, "range of " + k, "%s runs over `%s`: the last delay element would never be written / read" % (what, v[2] if len(v) > 2 else "?"), b.loc())
+        else:
+            ctx.ok("C13-R6", what, b.loc())
+    # order: warp loop, x, shift, d[0]
+    dom = b.dominators()
+    seq = [got.get(k, (None,))[0] for k in ("warp", "x", "shift", "d0")]
+    if all(x is not None for x in seq) and all(not b.can_reach(seq[j + 1], seq[j]) or seq[j] == seq[j + 1] for j in range(3)) and all(b.can_reach(seq[j], seq[j + 1]) for j in range(3)):
+        ctx.ok("C13-R6", "order: warp/accumulate, then x -= y, then the shift, then d[0]", b.loc())
+    else:
+        ctx.fail("C13-R6", b.path, "order", "the four steps of the section are not in the order warp, output, shift, d[0]", b.loc())
+    # df: every section once
+    df = cm.body_or_fail(ctx, p, "C13-R6", MG + "df")
+    if df is not None:
+        deb = ExprBuilder(df)
+        calls = cm.local_calls(df, p, exact=MG + "dff")
+        good = False
+        if len(calls) == 1:
+            cbb, ct = calls[0]
+            args = [deb.at(cbb).op(a) for a in ct["args"]]
+            lvp = loop_var_parts(args[4]) if len(args) == 5 else None
+            good = lvp is not None and lvp[0] == "up" and show(lvp[1]) == "0" and show(lvp[2]) in ("len(self.d)",) and [show(a) for a in args[1:4]] == ["x", "alpha", "coefficients"]
+        if good:
+            ctx.ok("C13-R6", "df: dff(x, alpha, coefficients, i) for i in 0..self.d.len()", df.loc())
+        else:
+            ctx.fail("C13-R6", df.path, "cascade", "df does not run every section exactly once with the same input/alpha/coefficients", df.loc())
+    nw = cm.body_or_fail(ctx, p, "C13-R6", MG + "new")
+    if nw is not None:
+        r = ExprBuilder(nw).local(0)
+        dd = r[2][r[3].index("d")] if r[0] == "agg" and r[3] and "d" in r[3] else None
+        if dd is not None and dd[0] == "call" and dd[1].endswith("from_elem") and show(dd[2][1]) == "n" and dd[2][0][0] == "call" and dd[2][0][1].endswith("from_elem") and show(dd[2][0][2][1]) == "c_len":
+            ctx.ok("C13-R6", "MGLSA::new(n, c_len): n sections of c_len delays", nw.loc())
+        else:
+            ctx.fail("C13-R6", nw.path, "delay lines", "the filter is not built as n sections of c_len delays: %s" % (show(dd)[:100] if dd else None), nw.loc())
+    sn = p.body("vocoder::stage::Stage::new")
+    if sn is not None:
+        seb = ExprBuilder(sn)
+        cs = cm.local_calls(sn, p, exact=MG + "new")
+        if len(cs) == 1 and [show(seb.at(cs[0][0]).op(a)) for a in cs[0][1]["args"]] == ["stage", "nmcp"]:
+            ctx.ok("C13-R6", "Stage::new builds the filter with (stage, nmcp)", sn.loc())
+        else:
+            ctx.fail("C13-R6", sn.path, "filter size", "Stage::new does not build the MGLSA filter with (stage sections, nmcp delays)", sn.loc())
+
+
 def r5_stability(ctx, p):
     """R5: the frequencies the filter realises are the given ones unless two of them (or an edge)
     are closer than pi / (4 * len) = pi / (4 (m+1)): every store of check_lsp_stability sits behind a
@@ -162,6 +301,82 @@ def r5_stability(ctx, p):
             ctx.fail("C13-R5", vs.path, "call site", "check_lsp_stability is called %d times / not before lsp2mgc" % len(calls), vs.loc())
 
 
+def lsp_chain_bounds(p):
+    """For the no-panic clause of C01: the two section chains of lsp2lpc index their delay vectors
+    x0[i+1], x0[i], x1[i], x2[i] and the coefficient vector c[i] with i in 0..N; the vectors must be
+    allocated with N + 1 elements for the *same* N the loop runs to (the P and the Q count differ
+    for odd orders).  Returns [(chain start element, ok, text)] or None if the chains are not
+    recognised (C13-R2 reports that)."""
+    b = p.body(LSP + "lsp2lpc")
+    if b is None:
+        return None
+    named = {}
+
+    def hook(pl, bb):
+        l = pl["local"]
+        if l <= b.argc or not (b.local_name(l) or b.locals[l].get("inlined_name")):
+            return None
+        if l not in named:
+            ds = [d for d in b.defs().get(l, []) if not b.is_cleanup(d[0])]
+            named[l] = len(ds) == 1 and b.locals[l]["ty"].startswith("std::vec::Vec<f64")
+        if named[l]:
+            return eb.project(("var", l, b.local_name(l) or b.locals[l].get("inlined_name") or ("v%d" % l)), pl["proj"])
+        return None
+    eb = ExprBuilder(b, place_hook=hook)
+    syms = LoopSyms(lambda e: ("sym", "LEN") if e[0] == "len" and _is_self(e[1]) else None)
+    one = Poly.const(1)
+    out = []
+    # every indexed store / load of a named f64 vector inside a range loop
+    uses = {}      # vector local -> set of (index poly)
+    for bb, i, st, tgt, root, chain, val in stores(b, eb):
+        for x in list(walk(tgt)) + list(walk(val)):
+            if x[0] == "idx" and x[1][0] == "var" and isinstance(x[1][1], int):
+                uses.setdefault(x[1][1], set()).add(syms.poly(x[2]))
+    res = []
+    for l, idxs in sorted(uses.items()):
+        # allocation size of the vector
+        size = None
+        for d in b.defs().get(l, []):
+            if d[1] == "term" and not b.is_cleanup(d[0]):
+                e = eb.at(d[0]).call(d[2])
+                if e[0] == "call" and e[1].endswith("from_elem") and len(e[2]) == 2:
+                    size = syms.poly(e[2][1])
+        if size is None:
+            continue       # the collected coefficient vectors: judged through the chain ranges (C13-R2)
+        worst = None
+        okv = True
+        for ip in idxs:
+            # index = lv + c with lv in start..end  =>  max index = end - 1 + c  (single loop variable)
+            lvs = [m_[0][0][1] for m_, c_ in ip.t.items() if len(m_) == 1 and isinstance(m_[0][0], tuple) and m_[0][0][0] == "lv" and m_[0][1] == 1 and c_ == 1]
+            lv = lvs[0] if len(lvs) == 1 else None
+            if lv is None:
+                if not ip.t or (len(ip.t) == 1 and () in ip.t):      # a constant index
+                    mx = ip
+                elif len(ip.t) == 1:
+                    mx = ip                            # a loop-free symbolic index such as mh1: index <= size - 1 ?
+                else:
+                    okv = False
+                    worst = str(ip)
+                    continue
+            else:
+                inf = syms.info.get(lv)
+                ends = list(inf["end"]) if inf else []
+                if not inf or len(ends) != 1:
+                    okv = False
+                    worst = str(ip)
+                    continue
+                mx = ip - syms.lv(lv) + ends[0] - one
+            slack = size - one - mx
+            # every atom is a usize quantity (a count, a loop variable): a polynomial whose
+            # coefficients are all non-negative is itself non-negative
+            if not slack.t or all(c_ >= 0 for c_ in slack.t.values()):
+                continue
+            okv = False
+            worst = "index up to %s in a vector of %s elements" % (mx, size)
+        res.append((b.local_name(l) or ("_%d" % l), okv, worst))
+    return res
+
+
 def run(ctx):
     ctx.rule("C13-R1", "lsp2lpc separates gain and frequencies: order m = len - 1; P factors from elements 1,3,5,.. and Q factors from elements 2,4,6,.. each as -2 cos(w); element 0 never enters a cosine; section counts (m/2, m/2) / ((m+1)/2, (m-1)/2)")
     ctx.rule("C13-R2", "lsp2lpc recursion: x0[i+1] = x0[i] + c[i]*x1[i] + x2[i] with x2 <- x1 <- x0 for both chains, chain inputs (even: xx + xf, xx - xf; odd: xx, xx - xff), output a[k-1] = -0.5*(P chain + Q chain) for k >= 1 over k in 0..=m, then a[i+1] <- -a[i] (i descending), a[0] <- 1")
@@ -176,13 +391,13 @@ def run(ctx):
 
         def hook(pl, bb):
             l = pl["local"]
-            if l <= b.argc or not b.local_name(l):
+            if l <= b.argc or not (b.local_name(l) or b.locals[l].get("inlined_name")):
                 return None
             if l not in named:
                 ds = [d for d in b.defs().get(l, []) if not b.is_cleanup(d[0])]
                 named[l] = len(ds) == 1 and b.locals[l]["ty"].startswith("std::vec::Vec<f64")
             if named[l]:
-                return eb.project(("var", l, b.local_name(l)), pl["proj"])
+                return eb.project(("var", l, b.local_name(l) or b.locals[l].get("inlined_name") or ("v%d" % l)), pl["proj"])
             return None
         eb = ExprBuilder(b, place_hook=hook)
 
@@ -294,6 +509,26 @@ def run(ctx):
                             idx = x0[0][1]
                             if cvec[0][1] in coef and ip == idx + one and cvec[1] == idx and x1[1] == idx and x2[0][1] == idx and x1[0] not in (root, x2[0][0]):
                                 chains[root] = {"c": coef[cvec[0][1]], "x1": x1[0], "x2": x2[0][0], "bb": (bb, i), "idx": idx}
+        # each chain runs over exactly its own sections: the P chain over 0..(first section count),
+        # the Q chain over 0..(second section count) - for odd orders the two counts differ
+        for x0, ch in chains.items():
+            lv = _single_lv(ch["idx"])
+            want_field = "0" if ch["c"] == 1 else "1"
+            okr = False
+            desc = "?"
+            if lv is not None and lv in syms.info:
+                inf = syms.info[lv]
+                desc = syms.describe(lv)
+                ends = list(inf["end"])
+                if inf["dir"] == "up" and inf["start"] == zero and len(ends) == 1 and len(ends[0].t) == 1:
+                    (mono, cf), = ends[0].t.items()
+                    if cf == 1 and len(mono) == 1 and mono[0][1] == 1:
+                        at = mono[0][0]
+                        okr = isinstance(at, tuple) and at[0] == "field" and at[-1] == want_field and tup is not None and (("var", tup) == tuple(at[1][:2]) or (at[1][0] == "var" and at[1][1] in (tup, b.local_name(tup))))
+            if okr:
+                ctx.ok("C13-R2", "chain over elements %d, %d, .. runs over 0..(section count .%s)" % (ch["c"], ch["c"] + 2, want_field), b.loc())
+            else:
+                ctx.fail("C13-R2", b.path, "range of chain %d" % ch["c"], "the %s chain runs over `%s`, expected 0..(its own section count, field .%s of the (P, Q) count pair): with an odd order the two chains have different lengths, and a shared bound indexes past the shorter one or skips a section of the longer one" % ("P" if ch["c"] == 1 else "Q", desc, want_field), b.loc())
         for x0, ch in chains.items():
             # x2[i] = x1[i] then x1[i] = x0[i], after the x0 update, same index
             s2 = [(bb, i) for bb, i, st, root, ip, val in rec if root == ch["x2"] and vec_at(val) == (ch["x1"], ip) and ip == ch["idx"]]
@@ -435,6 +670,7 @@ def run(ctx):
                 ctx.fail("C13-R4", vs.path, "constructor arguments", "LineSpectralPairs::new receives %s" % a, cm.loc_of(t["span"]))
     ctx.note("not decided: the MGLSA filter sections (mglsa.rs), frequency warping, the 0.001 neper law, decay for well-separated frequencies (numerical)")
     r5_stability(ctx, p)
+    r6_mglsa(ctx, p)
     expl = ("Structural clauses of the LSP -> LPC -> MGC conversion: role separation of gain and line spectral frequencies and the order "
             "(the defect of the pinned tree), the second-order-section recursion as index polynomials, the gain / stage scaling / conversion "
             "call, and the stage-gamma plumbing. Necessary conditions of C13; the magnitude-response identity itself is numerical.")
